@@ -5,7 +5,7 @@
    of the complete joint including the horseshoe hyper-priors, for an arbitrary function ln). *)
 From Coq Require Import String.
 From Coq Require Import ZArith List QArith Qcanon.
-From Batchie Require Import Lib.Sexp Lib.Num Generated.Consts Model.Gibbs Model.GibbsSpec Model.Mvn
+From Batchie Require Import Lib.Sexp Lib.Num Generated.Consts Generated.ConstsMcmc Model.Gibbs Model.GibbsSpec Model.Mvn
   Proofs.C08Sums Proofs.C08Gauss Proofs.C08Cache Proofs.C08Misc Proofs.C08Mgp Proofs.C08Mvn Proofs.C08Final
   Proofs.C08HorseshoeAlg Proofs.C08Horseshoe Generated.SrcGibbs Proofs.C08Source
   Generated.SrcMvn Generated.SrcGibbsObj Proofs.C08SourceObj.
